@@ -108,5 +108,9 @@ def generated_unit(root, idx, bias=None, stream="program", **kw):
     rng = sched.rng_for(root, stream, idx)
     if kw.pop("nearmiss", False):
         return gen_random.generate_nearmiss(rng)
+    if kw.pop("regexprog", False):
+        return gen_random.generate_regexprog(rng)
+    if kw.pop("lifecycle", False):
+        return gen_random.generate_lifecycle(rng, noindex=kw.pop("noindex", False))
     p = gen_random.generate(rng, bias=bias or {}, **kw)
     return p
